@@ -530,6 +530,33 @@ Proof.
   vm_compute. repeat split; reflexivity.
 Qed.
 
+(* finding C (c04-non-distributed-no-recheck). SINGLE_INSTANCE application {first: start_sequence 1, load 40; second:
+   start_sequence 2, load 40}; at before() instance 1 carries 10: validated for the whole start sequence (10 + 80 <= 100)
+   and assigned. While the first group starts, another application gets a process of load 20 started on the same node
+   (its own check passes: 10 + 40 + 20 <= 100). When the second group is reached the node carries 70 and process_job
+   sends the request (40) there without any check: 110 > 100, nothing pending anywhere, the program IS in the start
+   sequence. *)
+Definition wc_procs : list aproc := [mkAProc 40 1 all6 []; mkAProc 40 2 all6 []].
+Definition wc_cmd : cmd := mkCmd 2 40 true None all6 [].
+Definition wc_jobs : jobs := mkJobs [] [wc_cmd] [].
+
+Theorem non_distributed_no_recheck_refuted :
+  exists s local L0 L1 M arule procs J c J' c' t,
+    nodes_nodup L1 = true /\ nodes_consistent L1 = true /\ layout_wf L1 [] = true
+    /\ j_planned J = [c] /\ j_identifiers J = []
+    /\ job_before D_SINGLE_INSTANCE s local L0 M arule true procs J = Ok J'      (* before(), node at 10 ... *)
+    /\ j_identifiers J' = [t] /\ j_planned J' = [c']
+    /\ qualifies (mkView L0 M arule (c_known c) (c_disabled c) (app_start_load true procs) []) [] t = true
+    /\ process_job D_SINGLE_INSTANCE s local L1 M [wildcard] (mkJobs [] [] [t]) c' = Ok (Sent t)   (* ... later, node at 70 *)
+    /\ request_ok (mkView L1 M arule (c_known c) (c_disabled c) (c_load c) []) t = false
+    /\ static_ok (mkView L1 M arule (c_known c) (c_disabled c) (c_load c) []) t = true
+    /\ existsb (fun p => Z.ltb 0 (ap_seq p) && Z.eqb (ap_load p) (c_load c)) procs = true.
+Proof.
+  exists S_CONFIG, 1, (w_layout 10), (w_layout 70), w_mapper, [wildcard], wc_procs, wc_jobs, wc_cmd,
+         (mkJobs [] [retarget wc_cmd 1] [1]), (retarget wc_cmd 1), 1.
+  vm_compute. repeat split; reflexivity.
+Qed.
+
 (* ================================================================== examples: the hypotheses are satisfiable *)
 (* six instances on two nodes, instance 5 not running, nick identifiers 11..16, one stereotype 21 = {2, 4};
    rule: nick of 3, stereotype 21, an unknown name, identifier 2 (again)  ->  candidates 3, 2, 4 *)
